@@ -5,7 +5,7 @@
    function C (angle |-> offset) with the contract [is_quantile] of np.quantile as hypothesis. *)
 From Coq Require Import Reals Lra List ZArith Permutation Sorted PrimFloat.
 From V.model Require Import DirectSampling.
-From V.proofs Require Import DirectSamplingProofs.
+From V.proofs Require Import DirectSamplingProofs DirectSamplingMore.
 Import ListNotations.
 Local Open Scope R_scope.
 
@@ -80,12 +80,61 @@ Theorem C03_unrepaired_closing_vertex_degenerate : forall N, (3 <= N)%nat ->
   den R Rops (legacy_angle N N) (legacy_angle N 0) = 0.
 Proof. exact unrepaired_closing_vertex_degenerate. Qed.
 
+(* ---- audit round: behaviour outside "the step divides 360", the checked contract, every number type ---- *)
+
+(* any step below 120 degrees, N = round(360/deg_step) directions (what the code computes; |N*deg_step - 360| <= deg_step/2):
+   every edge still lies on the (1-alpha)-quantile tangent line of its direction; the normals advance by the step, except
+   that the gap that closes the turn lies between half a step and one and a half steps *)
+Theorem C03_any_step_edges_on_tangent_lines :
+  forall (xs ys : list R) (alpha : R) (C : R -> R) (N : nat) (deg_step : R),
+    (forall a, is_quantile (proj R Rops xs ys a) (1 - alpha) (C a)) ->
+    0 < deg_step < 120 -> Rabs (INR N * deg_step - 360) <= deg_step / 2 ->
+    let s := rad_step R Rops deg_step in
+    let P := ds_polygon R Rops C N deg_step in
+    length P = N /\
+    (forall i, (i < N)%nat ->
+      let a := angle R Rops s i in
+      let V := nth ((i + N - 1) mod N) P (0, 0) in
+      let W := nth i P (0, 0) in
+      is_quantile (proj R Rops xs ys a) (1 - alpha) (fst V * cos a + snd V * sin a) /\
+      is_quantile (proj R Rops xs ys a) (1 - alpha) (fst W * cos a + snd W * sin a) /\
+      forall t, on_line ((1 - t) * fst V + t * fst W, (1 - t) * snd V + t * snd W) a (C a)) /\
+    (forall i, angle R Rops s (S i) = angle R Rops s i - s) /\
+    angle R Rops s 0 = angle R Rops s (N - 1) - (2 * PI - INR (N - 1) * s) + 2 * PI /\
+    s / 2 <= 2 * PI - INR (N - 1) * s <= 3 * s / 2.
+Proof. exact any_step_edges_on_tangent_lines. Qed.
+
+(* the contract of np.quantile that the theorems assume is the one the correspondence run checks: over the reals, a value
+   that passes the executable check [quantile_ok_at] at the virtual index (n-1) p IS the linear-interpolated order statistic
+   ([ninf] / [pinf] stand for -inf / +inf); the full check [quantile_okb] also accepts the two neighbouring virtual indices
+   (n-1) p (1 -+ eps) and then yields the order statistic at a probability within eps*p of p *)
+Theorem C03_quantile_check_sound : forall (z : list R) (p q ninf pinf : R),
+  (forall v, In v z -> ninf < v) -> (forall v, In v z -> v < pinf) -> 0 <= INR (length z - 1) * p ->
+  quantile_ok_at R Rops z (INR (length z - 1) * p) q ninf pinf = true -> is_quantile z p q.
+Proof. exact quantile_check_sound. Qed.
+Theorem C03_quantile_okb_sound : forall (z : list R) (p q eps ninf pinf : R),
+  (forall v, In v z -> ninf < v) -> (forall v, In v z -> v < pinf) -> 0 <= p -> 0 <= eps <= 1 ->
+  quantile_okb R Rops z p q eps ninf pinf = true ->
+  exists p', Rabs (p' - p) <= eps * p /\ is_quantile z p' q.
+Proof. exact quantile_okb_sound. Qed.
+
+(* every number type (binary64 included), every N and step: the contour has N vertices and vertex i is computed from
+   directions i and (i+1) mod N and their two offsets only *)
+Theorem C03_vertex_pairing_any_number_type : forall T (O : ops T) (C : T -> T) N deg_step i d, (i < N)%nat ->
+  let s := rad_step T O deg_step in
+  length (ds_polygon T O C N deg_step) = N /\
+  nth i (ds_polygon T O C N deg_step) (vertex T O (d, C d) (d, C d)) =
+  vertex T O (angle T O s i, C (angle T O s i)) (angle T O s (S i mod N), C (angle T O s (S i mod N))).
+Proof. exact vertex_pairing. Qed.
+
 (* non-vacuity: a concrete sample, quantile and grid meeting the hypotheses *)
 Example C03_nonvacuous :
   is_quantile [3; 1; 2] (1 - / 2) 2 /\ (3 <= 4)%nat /\ INR 4 * 90 = 360 /\
-  length (ds_polygon R Rops (fun _ => 1) 4 90) = 4%nat.
+  length (ds_polygon R Rops (fun _ => 1) 4 90) = 4%nat /\
+  (0 < 7 < 120 /\ Rabs (INR 51 * 7 - 360) <= 7 / 2) /\                         (* a step that does not divide 360 *)
+  quantile_ok_at R Rops [3; 1; 2] (INR 2 * / 2) 2 0 4 = true.
 Proof.
-  split; [|split; [|split]].
+  split; [|split; [|split; [|split; [|split]]]].
   - exists [1; 2; 3]. split; [|split].
     + apply (perm_trans (l' := [1; 3; 2])); [apply perm_skip, perm_swap|].
       apply (perm_trans (l' := [3; 1; 2])); [apply perm_swap|apply Permutation_refl].
@@ -94,6 +143,8 @@ Proof.
   - auto.
   - simpl. lra.
   - apply ds_polygon_length.
+  - split; [lra|]. replace (INR 51 * 7 - 360) with (- (3)) by (simpl; lra). rewrite Rabs_Ropp, Rabs_right; lra.
+  - apply nonvacuous_check.
 Qed.
 
 Print Assumptions C03_edges_on_quantile_tangent_lines.
@@ -104,3 +155,7 @@ Print Assumptions C03_sample_size.
 Print Assumptions C03_sample_size_real.
 Print Assumptions C03_float_model_is_generic.
 Print Assumptions C03_unrepaired_closing_vertex_degenerate.
+Print Assumptions C03_any_step_edges_on_tangent_lines.
+Print Assumptions C03_quantile_check_sound.
+Print Assumptions C03_quantile_okb_sound.
+Print Assumptions C03_vertex_pairing_any_number_type.
